@@ -142,7 +142,8 @@ def run(rep, facts):
     n_w = 0
     bad = []
     for b in facts.bodies:
-        if b.promoted or not b.npath.startswith("parser::"):
+        # C01 speaks about the request parser (the preamble); the stream parser's framing is C02's / C03's subject
+        if b.promoted or not b.npath.startswith("parser::request::"):
             continue
         has = any(st["k"] == "assign" and any(el.get("n") in ("payload_rem", "padding_rem") for el in st["place"].get("p", []))
                   for blk in b.blocks for st in blk["st"])
@@ -179,7 +180,7 @@ def run(rep, facts):
                 if crossed or not okv:
                     bad.append((b.npath, pl[2], ir.show(v)[:70], loc))
     # aggregates that initialise the counters
-    for adt in ("parser::request::SkipState", "parser::request::GetValuesState", "parser::request::ParamsState", "parser::stream::Parser"):
+    for adt in ("parser::request::SkipState", "parser::request::GetValuesState", "parser::request::ParamsState"):
         for (b, bi, si, st) in F.aggregates_of(facts, adt):
             if b.raw.get("impl_trait") and F.norm(b.raw["impl_trait"]) == "std::clone::Clone":
                 continue
@@ -207,7 +208,7 @@ def run(rep, facts):
     rep.floor("R1.5", "assignments to frame counters", n_w, 20)
     # into_skip / GetValuesState::new argument order at the dispatch sites: (content_length, padding_length)
     for i in sr.instances:
-        if i["status"] != "ok" and "remaining p" in i["detail"]:
+        if i["status"] != "ok" and "remaining p" in i["detail"] and not i["instance"].startswith("stream/"):
             rep.violation("R1.5", "dispatch/" + i["instance"], i["detail"], i["loc"])
 
 
